@@ -107,7 +107,10 @@ def acorn_surface(vol, nsectors, tag=b'A', watford=False, fill=None, title_pad=b
         s2, s3 = catalogue(b'', vol.cycle, vol.boot, total, e2, s0_head=b'\xAA' * 8)
         img[512:768] = s2
         img[768:1024] = s3
+    first = 4 if watford else 2
     for e in vol.all_entries():
+        if e.start < first:
+            continue        # ill-formed entry (metadata-only families): never write a body over the catalogue
         b = file_body(tag, e)
         img[e.start * SEC:e.start * SEC + len(b)] = b
     return bytes(img)
